@@ -85,6 +85,8 @@ pub struct Inner {
     pub log: Vec<Ev>,
     pub roles: Vec<Role>,
     pub nworkers: usize,
+    /// number of pool.d.spawn hooks passed (threads the pool was asked to create)
+    pub spawn_hooks: usize,
     pub gate_open: Vec<bool>,
     pub started: Vec<usize>,
     pub ended: Vec<bool>,
@@ -193,6 +195,7 @@ impl Session {
                 log: Vec::new(),
                 roles: Vec::new(),
                 nworkers: 0,
+                spawn_hooks: 0,
                 gate_open: vec![false; njobs],
                 started: vec![0; njobs],
                 ended: vec![false; njobs],
@@ -250,6 +253,9 @@ impl Session {
         let grant;
         {
             let mut g = self.lock();
+            if site == "pool.d.spawn" {
+                g.spawn_hooks += 1;
+            }
             // a spinning retry loop must not eat the memory: beyond a cap only the other sites are logged
             if g.log.len() < 1_500_000 || !(site == "pool.d.try" || site == "pool.d.load") {
                 g.log.push(Ev::Hook { role, site, b });
@@ -480,6 +486,12 @@ impl Session {
     pub fn role_index(&self, name: &str) -> Option<usize> {
         self.lock().roles.iter().position(|r| r.name == name)
     }
+}
+
+/// Every thread the pool was asked to create has shown up at its first hook and has ended.
+/// (A spawned thread that has not started yet is invisible to the session until then.)
+pub fn all_workers_retired(g: &Inner) -> bool {
+    g.nworkers >= g.spawn_hooks && g.roles.iter().filter(|r| r.kind == Kind::W).all(|r| r.exited)
 }
 
 pub fn render(ev: &Ev, roles: &[String]) -> String {
